@@ -465,6 +465,12 @@ func entryParser(rc *RunCtx) *Violation {
 			if sw.accepted > 0 {
 				rc.probe("trace output produced")
 			}
+			// the trace is the same text whichever entry point produced it
+			ref := &SimWriter{}
+			call(func() (interface{}, error) { return p.ParseString(name, d, participle.Trace(ref)) })
+			if ref.total < 1<<16 && sw.total < 1<<16 && ref.buf.String() != sw.buf.String() {
+				return viol("Trace-output-differs-between-entry-points", fmt.Sprintf("entry point %d wrote %d bytes of trace, ParseString wrote %d bytes, and the texts differ", entry, sw.total, ref.total))
+			}
 		}
 	}
 
@@ -562,6 +568,19 @@ func entryTrailing(rc *RunCtx, w *world, p PH, x string, viol func(string, strin
 		peek = *pl.Peek()
 		return ast, err
 	})
+	// the option means the same through every entry point
+	viaString := call(func() (interface{}, error) { return p.ParseString("file.txt", full, opts...) })
+	viaBytes := call(func() (interface{}, error) { return p.ParseBytes("file.txt", []byte(full), opts...) })
+	viaReader := call(func() (interface{}, error) { return p.Parse("file.txt", strings.NewReader(full), opts...) })
+	if !sameResult(viaString, viaBytes) {
+		return viol("AllowTrailing-ParseBytes-vs-ParseString", fmt.Sprintf("with AllowTrailing(true) over X+%q ParseBytes = %s but ParseString = %s", w.junk, clip(viaBytes.desc(), 400), clip(viaString.desc(), 400)))
+	}
+	if !sameResult(viaString, viaReader) {
+		return viol("AllowTrailing-Parse-vs-ParseString", fmt.Sprintf("with AllowTrailing(true) over X+%q Parse = %s but ParseString = %s", w.junk, clip(viaReader.desc(), 400), clip(viaString.desc(), 400)))
+	}
+	if !sameResult(viaString, res) {
+		return viol("AllowTrailing-ParseFromLexer-vs-ParseString", fmt.Sprintf("with AllowTrailing(true) over X+%q ParseFromLexer = %s but ParseString = %s", w.junk, clip(res.desc(), 400), clip(viaString.desc(), 400)))
+	}
 	if res.Panic != "" || res.Err != nil {
 		// whether X+junk parses is C01's business; only the cursor position is asserted here
 		rc.probe("AllowTrailing parse of X+junk failed (not judged)")
